@@ -55,6 +55,30 @@ claimed = {
          "contains uses the same relation; isTrue is false exactly for null, false, empty string/array/object; filter keeps exactly the elements whose predicate value is truthy. "
          "Not yet: reflexivity/symmetry/transitivity lemmas of specEq, And/Or/Not cases of evaluate.",
          "contracts + VC generation over go/ssa + SMT"),
+
+ 'C03': ("Zero-annotation safety sweep over every function reachable from Search/Compile/MustCompile/Expression.Search and over every Error/Is/Unwrap method: one obligation per index, slice, nil dereference, "
+         "unchecked type assertion, division, make size, explicit panic and external precondition (e.g. Decimal.Int64 on NaN), proved for all inputs with loop invariants where needed; AST well-formedness "
+         "type invariants (children non-nil, slice step non-zero, variadic calls have arguments) are established by the parser and assumed by the evaluator; error structs can be formatted. "
+         "Recursion depth is NOT bounded: four known findings (stack exhaustion on deeply nested expressions/data) are reported as KNOWN-FINDING lines. Not covered: panics inside external code beyond the listed external preconditions.",
+         "VC generation over go/ssa + SMT (safety obligations), type invariants"),
+ 'C06': ("Frame/ownership obligations for every store, map update, append, copy and in-place sort in all reachable functions: the target is memory allocated by the same call (reference above the entry watermark) or "
+         "explicitly listed in the function's assigns clause; append on a slice with spare capacity must own it; arrays handed to sort/slices.SortFunc are owned; no store to package-level variables; every external callee has a contract. "
+         "Search/Compile/Expression.Search return (nil, err) on failure. Not covered: Search == Compile;Search outcome equality (follows from both calling Parse/Evaluate, argued not proved), MustCompile panics iff Parse fails (read off the two-branch body).",
+         "frame obligations (watermark freshness) generated over go/ssa + SMT"),
+ 'C07': ("By reduction (assumption A1 in DESIGN.md): no activation reachable from the API writes memory it did not allocate itself (the C06 frame obligations), none stores to a package-level variable, none uses go/select/channels, "
+         "and every external callee carries a contract (an unmodelled callee such as sync.Pool.Get fails an obligation). With A1 this gives race freedom for all interleavings. Correctly synchronised shared state would be rejected (conservative).",
+         "frame + global-store + external-effect obligations over go/ssa + SMT; reduction lemma A1 assumed"),
+ 'C09': ("Proved: every loop annotated with a variant decreases and is bounded by a size-only expression (string length / code-point count / array length / result width) in slice, sliceStep, find*, split*, pad*, reverse and the lexer scanners; "
+         "lexer and parser make progress (position / token index strictly increase); allocation sizes are bounded by sizes of existing objects (make and Builder.Grow preconditions). Recursion depth unbounded: known findings. "
+         "Not covered: loops over arrays without an explicit variant (range loops terminate by construction), cost of external calls, polynomial composition argument.",
+         "decreases/bound clauses + allocation obligations over go/ssa + SMT"),
+ 'C11': ("Proved with the ghost rune table (code-point boundaries of every string): slice returns exactly the code-point window, sliceStep the right number of code points, length counts code points, split on the empty separator yields one code point per element, "
+         "pad_* pads to max(width, code points) and requires a one-code-point pad, find_* results are code-point counts within the subject; every string stored into a result value starts and ends on code-point boundaries (valid UTF-8 out for valid UTF-8 in). "
+         "Assumed: A4 (matches of valid needles are boundary aligned), A7. Not covered: which code points a stepped slice / reverse selects, ordering of strings beyond byte order.",
+         "contracts over a ghost rune table + VC generation over go/ssa + SMT"),
+ 'C13': ("Proved: sort_by calls a stable sort on arrays it owns, Less is strictly the decimal128.Compare / byte order of the keys, Swap swaps items and keys together; the key of every element including a single one is evaluated (caller's scope) and must be a string or number; "
+         "max/min return an element value that no other element exceeds (resp. precedes) and fail exactly when a later element has another type; max_by/min_by return an element of the input. Assumed: contract of sort.Stable. Not covered: sort (closure comparator) functional clauses, extremality for *_by.",
+         "contracts + loop invariants + VC generation over go/ssa + SMT"),
 }
 checks = []
 for pid, (text, tech) in claimed.items():
